@@ -1102,8 +1102,101 @@ func specialRanges(r *ev.Run, id string) {
 	}
 }
 
+// twoPools: several allocators alive in one process (a configuration may list the prefix or
+// range plugin more than once): pools of different geometry, created one after the other and
+// used in turn, each judged by its own geometry.
+func twoPools(r *ev.Run, id string) {
+	sets := [][]Pool{
+		{{CIDR: "2001:db8:1::/52", Page: 56}, {CIDR: "2001:db8:2::/60", Page: 64}},
+		{{CIDR: "2001:db8:2::/62", Page: 64}, {CIDR: "2001:db8:1::/54", Page: 56}, {CIDR: "2001:db8:3::/126", Page: 128}},
+		{{V4: true, Start: "10.0.0.1", End: "10.0.0.4"}, {V4: true, Start: "192.168.7.250", End: "192.168.8.1"}},
+		{{V4: true, Start: "10.0.0.1", End: "10.0.0.3"}, {CIDR: "2001:db8:4::/62", Page: 64}},
+	}
+	for _, set := range sets {
+		type live struct {
+			p    Pool
+			g    geom
+			a    allocators.Allocator
+			held map[int64]bool
+		}
+		var ls []*live
+		for _, p := range set {
+			ls = append(ls, &live{p, newGeom(p), newAlloc(p), map[int64]bool{}})
+		}
+		for round := int64(0); round < 20; round++ {
+			for _, l := range ls {
+				g := l.g
+				fam := "ipv6"
+				if l.p.V4 {
+					fam = "ipv4"
+				}
+				viol := func(prop, sig, what string) {
+					if prop == id {
+						r.Violate(prop+"/"+fam+"/"+sig+"/several-pools", fmt.Sprintf("pool %v (%d blocks), while pools %v are alive in the same process: %s", l.p, g.n, set, what), map[string]interface{}{"pool": l.p, "scenario": fmt.Sprintf("pools %v created in this order, used in turn, round %d", set, round)})
+					}
+				}
+				hint := net.IPNet{}
+				want := int64(-1)
+				if round%3 == 1 {
+					// hint the highest free block
+					for b := g.n - 1; b >= 0; b-- {
+						if !l.held[b] {
+							want = b
+							hint = net.IPNet{IP: g.ipBytes(g.blockBase(b)), Mask: net.CIDRMask(g.page, g.width)}
+							break
+						}
+					}
+				}
+				n, err := l.a.Allocate(hint)
+				full := int64(len(l.held)) >= g.n
+				if err != nil {
+					if !full {
+						viol("C05", "alloc-fails-with-free-blocks", fmt.Sprintf("allocation failed (%v) with %d of %d blocks outstanding", err, len(l.held), g.n))
+					}
+					continue
+				}
+				ipb := n.IP
+				if l.p.V4 {
+					ipb = n.IP.To4()
+				}
+				blk := int64(-1)
+				if ipb != nil && len(ipb)*8 == g.width {
+					blk = g.blockOf(new(big.Int).SetBytes(ipb))
+				}
+				ones, bits := n.Mask.Size()
+				switch {
+				case blk < 0:
+					viol("C05", "outside-pool", fmt.Sprintf("allocation returned %v, not a block of this pool", n))
+				case ones != g.page || bits != g.width || new(big.Int).SetBytes(ipb).Cmp(g.blockBase(blk)) != 0:
+					viol("C05", "wrong-size-or-alignment", fmt.Sprintf("allocation returned %v; blocks of this pool are /%d", n, g.page))
+				case full:
+					viol("C05", "alloc-succeeds-on-full-pool", fmt.Sprintf("allocation returned %v with all %d blocks outstanding", n, g.n))
+				}
+				if blk >= 0 {
+					if l.held[blk] {
+						viol("C04", "double-allocation", fmt.Sprintf("allocation returned block %d which is still outstanding", blk))
+					}
+					if want >= 0 && blk != want {
+						viol("C07", "hint-not-honoured", fmt.Sprintf("hint naming free block %d returned block %d", want, blk))
+					}
+					l.held[blk] = true
+				}
+				if round%5 == 4 && blk >= 0 {
+					if err := l.a.Free(n); err != nil {
+						viol("C06", "free-of-held-fails", fmt.Sprintf("Free(%v) of the block just allocated failed: %v", n, err))
+					} else {
+						delete(l.held, blk)
+					}
+				}
+			}
+		}
+		r.Eval("several-pools")
+	}
+}
+
 // sweeps: linear fills of many pool geometries (C05), hint family at word boundaries (C07).
 func sweeps(r *ev.Run, id string) {
+	twoPools(r, id)
 	specialRanges(r, id)
 	freeThenHint(r, id)
 	freeNeverAllocated(r, id)
